@@ -897,7 +897,9 @@ def _refresh_elementwise_output_shape(node: ir.Node) -> None:
         # operand: their rank may exceed the rank of the other operands.
         dims = _shape_dims_seq(iv.shape)
         if dims is None:
-            continue
+            # An operand of unknown shape may have any rank: the broadcast of
+            # the remaining operands says nothing about the result.
+            return
         candidate_shapes.append(dims)
     merged = _broadcast_shape_dims(candidate_shapes)
     if merged is None:
